@@ -18,7 +18,7 @@ CLAIMS = {
             'Sender bookkeeping and the resend loop body are under contract too (units U6/U9), and RenetClient::{new, new_from_server, from_channels} are proved verbatim to build '
             'each configured channel with its configured kind, budget and direction (U14).',
             'RenetClient::{process_packet, send_message, receive_message} are proved verbatim (U15): a decodable packet reaches exactly the channel it names, every (id, bytes) pair of it is taken over or already done, '
-            'nothing else changes; send_message stores the bytes once under the next id of the named channel. RenetClient::get_packets_to_send (U16): the record filed under each sent packet\'s sequence number names exactly the message ids / slice that packet carried, and every packet is labelled with a channel of the send order of the matching kind. Not decided: the liveness sentence (bounded ticks); records_ok (kinds of the recorded ids) is a precondition of the Ack arm, not an established invariant.'),
+            'nothing else changes; send_message stores the bytes once under the next id of the named channel. RenetClient::get_packets_to_send (U16): the record filed under each sent packet\'s sequence number names exactly the message ids / slice that packet carried, and every packet is labelled with a channel of the send order of the matching kind. The record invariant records_ok the Ack arm relies on is established and kept, not assumed: no record at construction (U14), every record written by get_packets_to_send satisfies it (U16, from the reliable channel\'s contract: what a packet carries names queued messages of the kind it carries them as, U9/U17), process_packet, send_message and receive_message keep it (U15), update keeps it (lemma over U18\'s contract). Not decided: the liveness sentence (bounded ticks).'),
     'C02': ('Unordered reliable receive: `done` is monotone, a message is stored only if its id is not done, receive_message removes exactly what it returns, '
             'and returns Some whenever a complete message is buffered; the cursor loop is proved with invariant and decreases. A ReliableUnordered configuration entry yields an '
             'unordered receive channel (RenetClient::from_channels, verbatim, U14).',
@@ -36,7 +36,7 @@ CLAIMS = {
             'without index/overflow/unreachable failures, keep memory == sum of what is stored <= max.',
             'RenetClient::process_packet is proved verbatim with no precondition on the bytes (U15): it returns for every input; undecodable bytes, an unknown channel id or a channel error only move the connection '
             'to Disconnected with the matching reason; the client invariant (every channel invariant while alive) is preserved. The Ack arm is under contract too: no panic for any decoded range list (BTreeMap::range precondition start <= end, every unwrap justified by the record invariant). '
-            'Assumed there: the loop over BTreeMap::range as a summary (rule D18), the floating-point rtt estimate cut out (rule D19), the record invariant records_ok as a precondition. Not decided: RenetServer::process_packet_from beyond its routing frame.'),
+            'Assumed there: the loop over BTreeMap::range as a summary (rule D18), the floating-point rtt estimate cut out (rule D19), the record invariant records_ok is a precondition there, established at construction and kept by every public operation of RenetClient (U14/U15/U16, lemma for update; round 4). Not decided: RenetServer::process_packet_from beyond its routing frame.'),
     'C07': ('Packet::decode returns for every datagram of length 0..=48 with all 256 prefix bytes and announced sequence lengths 0..15, with and without key (Kani, complete '
             'for that length range; AEAD stubbed with its precondition checked); a datagram the AEAD did not accept leaves the replay window untouched; '
             'ReplayProtection has no precondition on the sequence (Verus).',
@@ -46,7 +46,7 @@ CLAIMS = {
             'order and is trimmed exactly up to the horizon by acked_largest (Verus, unbounded).',
             'Every decodable non-Ack packet handed to RenetClient::process_packet has its sequence recorded by add_pending_ack (U15). The Ack arm of RenetClient::process_packet (U15): exactly the records whose sequence lies inside a received half-open range are removed (none outside), acknowledgements only release or mark messages of reliable send channels (nothing is added or altered), '
             'our own pending list is only trimmed. Assumed: BTreeMap::range summary (D18), records_ok (that a record names the ids/slices of the packet it was written for is established in get_packets_to_send by code not under that contract). '
-            'Record contents (U16, RenetClient::get_packets_to_send): the record filed under a packet\'s sequence number names exactly the message ids / the slice that packet carried (map/collect specified through vstd), records of other sequence numbers are untouched: a released id is one the acknowledged packet carried. Still assumed: records_ok (kinds of the recorded ids) as a history invariant.'),
+            'Record contents (U16, RenetClient::get_packets_to_send): the record filed under a packet\'s sequence number names exactly the message ids / the slice that packet carried (map/collect specified through vstd), records of other sequence numbers are untouched: a released id is one the acknowledged packet carried. records_ok is established and kept by every public operation (round 4: U14, U15, U16, U17, U9), no longer a history assumption.'),
     'C09': ('Accounting invariant memory_usage_bytes == sum of stored message lengths + reserved reassembly buffers <= max, preserved by every operation of the reliable '
             'receive channel from every state, including the offset state inside process_slice; duplicates of done messages reserve nothing (clean()).',
             'RenetClient::update (U18, verbatim around an assumed values_mut induction, rule D18) applies the 3-second discard to every unreliable receive channel with the advanced clock. '
